@@ -94,11 +94,14 @@ def run(tier, seed, t0):
         for order in (True, False):
             for L in lengths(tier, comp):
                 jobs.append(lambda L=L, comp=comp, order=order: ob_decrypt(L, comp, order))
+    # the decoder of C1 itself: a modified tag byte or a non-canonical coordinate is a modified C1 and must not decode
+    import c19
+    jobs += [lambda: c19.ob_from_byte_lengths(33), lambda: c19.ob_from_byte_lengths(65)]
     res = run_parallel(jobs, nproc=14)
     return finish("C06", tier, seed, "model_checking", res, t0,
                   assumptions=["hash, point decoding, group and field layers are uninterpreted functions: the verdict holds for every behaviour of those layers",
                                "tamper evidence = the three implications proved on every accepting path; 'a changed bit changes the hash' is SM3 collision resistance (cryptographic assumption)",
-                               "the on-curve predicate and the decoder themselves are decided under C11/C19"],
+                               "the on-curve predicate is decided under C11; the C1 decoder (tags 02/03/04 only, canonical coordinates) by the from_byte_len_33/65 obligations here and in C19"],
                   explanation="MIR of gm-sm2 decrypt/kdf/xor_bytes executed symbolically for each ciphertext length; every accepting path must imply: C1 decoded and on the curve, "
                               "m = C2 xor KDF(x2||y2), C3 = SM3(x2||m||y2); every panic (slice, assert_eq!, unwrap) is a violation.",
                   rule="one obligation per (encoding, order, length); all distinct")
